@@ -10,7 +10,7 @@ package confparse
 //@   ensures peerID == "" ==> ret1 == nil && ret0 == ""
 //@   ensures peerID != "" && ret1 == nil ==> b58ok(peerID) && ret0 == b58dec(peerID) && mhWellFormed(ret0) && uvarintVal(ret0) == 0
 //@ func ValidatePeerID
-//@   ensures ret == nil ==> id != "" && b58ok(id) && mhWellFormed(b58dec(id))
+//@   ensures ret == nil ==> id != "" && b58ok(id) && mhWellFormed(b58dec(id)) && uvarintVal(b58dec(id)) == 0
 
 // A protocol ID is accepted exactly when it is non-empty valid UTF-8 (or empty, where allowed), and
 // is returned unchanged.
